@@ -148,12 +148,12 @@ CLAIMED['C07'] = dict(
 CLAIMED['C03'] = dict(
    text='PARTIAL. Machine-checked proofs that the analytic membership tests of circle / ellipse / ring / wedge are exactly their documented definitions (distance and '
         'bearing compared with the radius function, holes removed), that b <= radius_at <= a with the axis values, that EVERY generated boundary point lies exactly '
-        'on the defined curve at the scheduled bearing for any k (from dest_dist / dest_bearing of C07), circle bearings strictly decrease along the list, first = last, '
+        'on the defined curve at the scheduled bearing for any k (from dest_dist / dest_bearing of C07), circle bearings strictly decrease along the list, ring/wedge bearings are strictly monotone in the index on both arcs, first = last, '
         'list shapes for every k; the returned coordinate is within 5e-8 deg per axis of a point on the curve (2 cm figure: partial, degrees not metres). Tied to the '
         'code by the translator (4 GenEq lemmas) and per-case `interval` lemmas for boundary coordinates and contains decisions plus a numeric oracle with an '
         'independent geodesic. The chord-error clause (polygon form vs analytic test) is NOT proved and is exercised on a fixed corpus only; findings D35 (polygon '
         'form across +-180) and D36 (wedge through north).',
-   note='Trusted: as C07 (Reals axioms, Interval primitives, translator, harness). Not proved: IEEE/libm error, 2 cm in metres, strict angular order for ellipse/ring, chord error.',
+   note='Trusted: as C07 (Reals axioms, Interval primitives, translator, harness). Not proved: IEEE/libm error, 2 cm in metres, strict angular order for the ellipse (its bearings are known only modulo 360), chord error.',
    technique='Coq real-analysis proofs on top of C07 + translator tie + per-case interval correspondence; fixed corpus for the chord clause',
    ref='5/C03, 9')
 CLAIMED['C11'] = dict(
